@@ -79,7 +79,7 @@ Print Assumptions C26_redis_partial.
    and through selfmon.withActiveLock, the boolean reflection [Ephemeral.ok]
    evaluated on what the etcd model produces is true *)
 Theorem C26_ok_accepts_etcd_model_bounded :
-  forallb (fun ops => orb (negb (e_legal e_start ops)) (ok_on_model BEtcd [1%Z; 1%Z] ops)) (schedules 5) = true /\
-  forallb (fun ops => orb (negb (ew_legal (e_start, None) ops)) (ok_on_model BEtcdW [1%Z; 1%Z] ops)) (schedules 5) = true.
+  forallb (fun ops => orb (negb (e_legal e_start ops)) (ok_on_model BEtcd (1%Z :: 1%Z :: nil) ops)) (schedules 5) = true /\
+  forallb (fun ops => orb (negb (ew_legal (e_start, None) ops)) (ok_on_model BEtcdW (1%Z :: 1%Z :: nil) ops)) (schedules 5) = true.
 Proof. exact ok_sound_on_etcd_model_bounded. Qed.
 Print Assumptions C26_ok_accepts_etcd_model_bounded.
